@@ -258,6 +258,13 @@ Example lts_same_id_blocks :
   texec (bstep []) lkey_badger (tinit []) [LBegin 1 MRead (s2b "a"); LDo 1 (KUpdate va env0)] = None.
 Proof. vm_compute. repeat split. Qed.
 
+(* Close on a transaction that is not open (already closed) is not a step: nothing changes *)
+Example lts_close_twice_disabled :
+  texec (bstep []) lkey_badger (tinit []) [LBegin 1 MWrite (s2b "a"); LClose 1; LClose 1] = None /\
+  (match texec (bstep []) lkey_badger (tinit []) [LBegin 1 MWrite (s2b "a"); LClose 1; LBegin 2 MWrite (s2b "a")] with
+   | Some (s, _) => t_open s = [(2, (MWrite, s2b "a"))] | None => False end).
+Proof. vm_compute. repeat split. Qed.
+
 Example lts_interleaving_runs :
   match texec (bstep []) lkey_badger (tinit [])
       [LBegin 1 MWrite (s2b "a"); LBegin 2 MWrite (s2b "b"); LDo 1 (KCreate va env0); LDo 2 (KCreate vb env0);
